@@ -87,7 +87,7 @@ sys.addaudithook(_audit)
 # ---------------------------------------------------------------------------------------------
 # names and contents
 
-NAME_CLASSES = ["plain", "space", "unicode", "xml", "mixed", "nfd", "prefix"]
+NAME_CLASSES = ["plain", "space", "unicode", "xml", "mixed", "nfd", "prefix", "case"]
 
 
 def concrete_name(abstract: str, cls: str, is_file: bool) -> str:
@@ -111,6 +111,10 @@ def concrete_name(abstract: str, cls: str, is_file: bool) -> str:
     if cls == "prefix":    # every name is a string prefix of the names that sort before it in the abstract alphabet:
         # 'd' -> nnn...(23), 'a' -> nnn...(26), so a sibling's name starts with the name of a nested history's folder
         return "n" * (27 - (ord(base[0]) - ord("a"))) + base[1:] + ext
+    if cls == "case":      # all names are the same word, they differ in upper / lower case only
+        word = "clipnamestuv"
+        bits = int.from_bytes(hashlib.md5(abstract.encode()).digest()[:2], "big") % (1 << len(word))
+        return "".join(ch.upper() if (bits >> i) & 1 else ch for i, ch in enumerate(word)) + ext
     if cls == "mixed":
         k = sum(ord(c) for c in abstract) % 4
         return concrete_name(abstract, NAME_CLASSES[k], is_file)
@@ -152,8 +156,15 @@ class World:
             "dsstore_parent": "mnt/.DS_Store/vol",
             "pattern_parent": "mnt/k_t.tmp/vol",
             "x_parent": "mnt/%s/vol" % concrete_name("x", name_class, True),
+            "link_parent": "mnt/link/vol",      # 'link' is a symbolic link to another directory: abspath and realpath of everything differ
         }[location]
         self.root = os.path.join(self.base, loc)
+        self.hidden = None
+        if location == "link_parent":
+            self.hidden = os.path.join(self.base, "real")
+            os.makedirs(self.hidden)
+            os.makedirs(os.path.join(self.base, "mnt"))
+            os.symlink(self.hidden, os.path.join(self.base, "mnt", "link"))
         os.makedirs(self.root)
         self.flat_dest = os.path.join(self.base, "flatout")
         self.names = {}  # abstract name -> concrete
@@ -244,7 +255,12 @@ class World:
     def snapshot(self):
         """complete state below base: path -> (type, sha256, size, mtime_ns, mode)"""
         snap = {}
-        for dp, dn, fn in os.walk(self.base):
+        for dp, dn, fn in os.walk(self.base, followlinks=self.hidden is not None):
+            if self.hidden is not None and (dp == self.hidden or dp.startswith(self.hidden + os.sep)):
+                dn[:] = []
+                continue            # the tree is looked at through the link only
+            if self.hidden is not None and dp == self.base:
+                dn[:] = [n for n in dn if n != "real"]
             for n in dn:
                 p = os.path.join(dp, n)
                 st = os.lstat(p)
